@@ -382,6 +382,12 @@ def check_case(case):
                 ok_ = (np.abs(rate - expect) <= 1e-4 * (1 + np.abs(expect))) | (np.abs(rate - expect - 1e-3) <= 1e-4 * (1 + np.abs(expect)))
                 require(bool(np.all(ok_)), name + ".global_scale_conditional", lambda: "block %s: the global scale was drawn with rate %r; given the local scales the sampler holds after the block, the treatments' parameters and the auxiliary draw %r the conjugate rate is %r (+1e-3 stabiliser allowed)" % (name, np.ravel(rate).tolist(), np.ravel(aux).tolist(), np.ravel(expect).tolist()))
                 counts[name + ".global_scale_checked"] += 1
+        if name == "_prec_W_step" and hasattr(wm, "gam"):
+            # multiplicative gamma process: the embedding scales are the running products of the factors just drawn (within their bounds)
+            C_ = 1.0 / np.sqrt(1 + len(wm.y))
+            exp_tau = np.clip(np.cumprod(np.asarray(wm.gam, dtype=float)), C_, 1e6)
+            got_tau = np.asarray(wm.tau, dtype=float)
+            require(got_tau.shape == exp_tau.shape and bool(np.allclose(got_tau, exp_tau, rtol=1e-4, atol=0)), "_prec_W_step.scales_are_running_products", lambda: "after the embedding-scale block tau = %r, the running products of its factors are %r" % (got_tau.tolist(), exp_tau.tolist()))
         if name.startswith("_prec"):
             msg = G.bounds_ok(wm)
             require(msg is None, name + ".bounds", lambda: msg)
